@@ -41,7 +41,7 @@ CLAIMED = {
             "Totals compared with relative tolerance 1e-15. Ties between admissible chains with different rates, totals on a rounding midpoint and rates needed only by exactly-zero amounts are DONT_CARE."),
     "C11": ("exploration",
             "deterministic simulation with fault injection: loader callback sequence vs model flattening under permuted glob enumeration on three file systems (simulated VFS behind ProdFileSystem, FakeFileSystem, real directory), split-vs-unsplit report equality, read faults injected one at a time",
-            "A seeded, order-sensitive entry sequence is cut at entry boundaries into an include tree (up to 8 files, depth 3; literal, sub-directory, '../', './', 'sub/../x/' and '*'/'??' glob includes relative to the including file, wildcards in a directory component with file names ordered against the path order, a shared declarations file included from two places; dot-files and wrong-base-directory decoys next to the matches; sometimes an include matching nothing). The (path, entry) sequence handed to the Loader::load callback must equal the model's flattening for every glob enumeration order the simulated file system returns (2-4 per world; the thorough tier walks permutations systematically), on the repository's FakeFileSystem, and (1 run in 16) in a real directory through the real OS. balance/register/accounts/flatten of the tree must equal those of the one-file ledger. vanish/EIO/permission/invalid-UTF-8 on a matched file must make loading fail; a failing canonicalize must change nothing.",
+            "A seeded, order-sensitive entry sequence is cut at entry boundaries into an include tree (up to 8 files, depth 3; literal, sub-directory, '../', './', 'sub/../x/' and '*'/'??' glob includes relative to the including file, character classes '[1-9]' '[!a-z]', wildcards in a directory component - trailing or leading the name, beside dot-directories - with file names ordered against the path order, includes of files without entries, a shared declarations file included from two places; 1 world in 25 is a chain of 12-40 files each including the next; dot-files and wrong-base-directory decoys next to the matches; sometimes an include matching nothing). The (path, entry) sequence handed to the Loader::load callback must equal the model's flattening for every glob enumeration order the simulated file system returns (2-4 per world; the thorough tier walks permutations systematically), on the repository's FakeFileSystem, and (1 run in 16) in a real directory through the real OS. balance/register/accounts/flatten of the tree must equal those of the one-file ledger. vanish/EIO/permission/invalid-UTF-8 on a matched file must make loading fail; a failing canonicalize must change nothing.",
             "okane's own parser, applied to each file separately, defines the entries of a file. Level is exploration over trees; per tree the fault placement is one fault at a time on 0-2 drawn files, not every file."),
     "C12": ("exploration",
             "deterministic simulation: metamorphic pair (canonical-name ledger A, alias-rewritten ledger B in the same include tree) reported by simulated processes with different hash seeds and glob orders; byte equality of reports, no alias shown, model comparison; planted alias conflicts must be rejected at the declaration",
@@ -53,7 +53,7 @@ CLAIMED = {
             "For syntax errors the extent is the whole broken entry, not the exact point where parsing stopped; column numbers and underlined sub-spans are not judged."),
     "C13": ("exploration",
             "deterministic simulation: same world and argv run in 2-6 simulated processes differing in hash seed, glob enumeration order, read/write chunking, EINTR and clock; outputs compared byte for byte",
-            "The property is schedule independence, and the simulator owns every schedule okane depends on: per-process hash keys (content-hashed interned strings + seeded SipHash for every HashMap/HashSet in okane), glob enumeration order, stream chunking with short reads/writes and EINTR, and the calendar date. Each seeded world (accepted and failing ledgers, multi-commodity accounts, price diamonds, shallow and deep include trees with wildcards in directory components; a fifth of the runs are `okane import` worlds: CSV and camt.053 statements under layered configurations, multi-field rule elements, hostile text, header labels that no longer match) is run with 1-6 commands in 2-6 processes; stdout bytes, success/failure and the rendered error chain must be identical. One run in 64 also executes every command with the shipped, unhooked binary on the world materialised in a real directory and compares two OS processes of that binary with each other and then with the simulated process (exit status and stdout; stub fidelity, and real hash seeds); the import worlds also break header labels or several field templates at once so that the import fails and the error must read the same in every process; a failing stdout (EPIPE after k bytes) is recorded as a probe.",
+            "The property is schedule independence, and the simulator owns every schedule okane depends on: per-process hash keys (content-hashed interned strings + seeded SipHash for every HashMap/HashSet in okane), glob enumeration order, stream chunking with short reads/writes and EINTR, and the calendar date. Each seeded world (accepted and failing ledgers, multi-commodity accounts, price diamonds, shallow and deep include trees with wildcards in directory components; a fifth of the runs are `okane import` worlds: CSV and camt.053 statements under layered configurations, multi-field rule elements, hostile text, header labels that no longer match) is run with 1-6 commands in 2-6 processes; stdout bytes, success/failure and the rendered error chain must be identical. One run in 64 also executes every command with the shipped, unhooked binary on the world materialised in a real directory and compares two OS processes of that binary with each other (exit status, stdout and error text: real hash seeds and addresses) and then with the simulated process (exit status and stdout; stub fidelity); in half of the runs the simulated calendar date differs between the processes (the cached --now default is pinned, so nothing may depend on it); the import worlds also break header labels or several field templates at once so that the import fails and the error must read the same in every process; a failing stdout (EPIPE after k bytes) is recorded as a probe.",
             "Hash maps inside dependencies keep RandomState (their order never reaches output). Simulated orders are a subset of what production can produce."),
     "C15": ("exploration",
             "deterministic simulation: seeded CSV, camt.053 and Viseca statements with hostile text, imported by 2-3 simulated processes differing in hash seed and in the chunking of the YAML / statement streams (short writes and EINTR on stdout for the shipped command); printed output parsed back with okane's parser and compared with the built trees",
@@ -65,7 +65,7 @@ CLAIMED = {
             "Weak-to-medium simulation contribution: the pipeline through a durable file and the delivery faults. Liability accounts with a balance column are not put through the pipeline."),
     "C17": ("exploration",
             "deterministic simulation: layered configuration documents and rewrite rules (CSV and camt.053, multi-field elements) resolved by 2-4 simulated processes with different hash seeds and chunked YAML streams; select() compared with the statement's merge, every record's payee / code / counter-account / pending mark with the model's fold",
-            "1-6 configuration documents in shuffled order whose paths are (or are not) substrings of the statement's path, the shortest carrying the required settings, later ones overriding scalars and appending rules. ConfigSet::select on the multi-document stream must equal select on a single document holding a merge the statement admits (shortest path first, equally long paths in either order). Rewrite rules (case-insensitive regexes, named groups payee / code, OR-lists, AND-elements of 1-3 fields, payee overrides, pending flags, several account-assigning rules per record) are folded over CSV records and, in a third of the runs, over camt.053 entries where every regex field captures; payee, code, counter-account (Income:/Expenses:Unknown when none) and pending mark must equal the model's fold in every simulated process.",
+            "1-6 configuration documents in shuffled order whose paths are (or are not) substrings of the statement's path, the shortest carrying the required settings, later ones overriding scalars and appending rules. ConfigSet::select on the multi-document stream must equal select on a single document holding a merge the statement admits (shortest path first, equally long paths in either order). Rewrite rules (case-insensitive regexes, named groups payee / code, OR-lists, AND-elements of 1-3 fields, payee overrides, pending flags, several account-assigning rules per record) are folded over CSV records, in a third of the runs over camt.053 entries where every regex field captures, and in a ninth over Viseca card statements (payee and category fields; the chain starts from the payee the importer yields under no rule); payee, code, counter-account (Income:/Expenses:Unknown when none) and pending mark must equal the model's fold in every simulated process.",
             "Documents with equally long paths may merge in either order (select must equal one of the admissible merges, each such document taking part); two fields of one element capturing different text for the same group are DONT_CARE (the latter still has to be the same in every process: C13)."),
     "C18": ("exploration",
             "deterministic simulation with fault injection: a model bank account emits consecutive consistent camt.053 statements; imported transactions compared with the model in 2-4 simulated processes (hash seed, chunked XML/YAML); funding + printed output of exactly-once / duplicated / lost / reordered deliveries book-kept by okane and by the reference model",
